@@ -986,6 +986,85 @@ async fn sigint_family(cli: &Cli, report: &mut Report) {
     }
 }
 
+/// Connections opened the moment the stop request has returned. `cancel()` wakes the listener's task;
+/// until that task runs, a connection that arrives meanwhile sits in the accept queue beside the
+/// pending stop. Order is program order on one OS thread (cancel() returns, then connect() is
+/// called), no clocks involved. A listener that looks at the stop request first never takes such a
+/// connection; one that takes whichever it happens to look at first serves a good part of them.
+/// Verdict by count: the instant between two polls of one task cannot be excluded by any
+/// implementation (a thread may be descheduled anywhere), so a single occurrence in a run is
+/// recorded, three or more are a violation.
+async fn right_after_cancel_family(cli: &Cli, report: &mut Report) {
+    let rounds = cli.scaled(if cli.tier == Tier::Thorough { 600 } else { 160 }) as usize;
+    let sem = Arc::new(tokio::sync::Semaphore::new(12));
+    let mut tasks = vec![];
+    for k in 0..rounds {
+        let sem = sem.clone();
+        tasks.push(tokio::spawn(async move {
+            let _permit = sem.acquire_owned().await;
+            let direct = start_direct(DirectSpec { timeout: Duration::from_secs(3), ..Default::default() }).await;
+            let addr = direct.addr;
+            // the listener is up and serving
+            let control = TcpEnd::connect(addr, None).await.ok();
+            let control_ok = match &control {
+                Some(end) => {
+                    let log = Client::new(end, scripts::plan(scripts::status_script("stop.example.org", 25565, k as u64), true, [1u8; 16], Duration::from_secs(3))).run().await;
+                    end.kill();
+                    log.count("StatusPong") > 0
+                }
+                None => false,
+            };
+            if !control_ok {
+                direct.stop.cancel();
+                return None;
+            }
+            let stop = direct.stop.clone();
+            let mut request = scripts::handshake(1, "stop.example.org", 25565, 770).frame();
+            request.extend_from_slice(&Pkt::StatusRequest.frame());
+            let served = tokio::task::spawn_blocking(move || {
+                use std::io::{Read, Write};
+                stop.cancel();
+                // from here on the connection "arrives afterwards"
+                let Ok(mut s) = std::net::TcpStream::connect(addr) else { return Some(false) };
+                let _ = s.set_read_timeout(Some(Duration::from_millis(500)));
+                if s.write_all(&request).is_err() {
+                    return Some(false);
+                }
+                let mut buf = [0u8; 64];
+                Some(matches!(s.read(&mut buf), Ok(n) if n > 0))
+            })
+            .await
+            .ok()
+            .flatten();
+            let _ = direct.wait_returned(Duration::from_secs(5)).await;
+            served
+        }));
+    }
+    let (mut judged, mut served) = (0usize, 0usize);
+    for t in tasks {
+        if let Ok(Some(s)) = t.await {
+            judged += 1;
+            served += s as usize;
+        }
+    }
+    if judged < rounds / 2 {
+        report.inconclusive(&format!("connect right after stop: only {judged} of {rounds} listeners served their control client"));
+        return;
+    }
+    report.eval(Some("connect-right-after-stop-returned"));
+    report.count("connections opened the moment the stop request had returned", judged as u64);
+    report.count("of those, served", served as u64);
+    let detail = json!({"rounds": judged, "served_although_opened_after_the_stop_request_had_returned": served, "order": "program order on one OS thread: cancel() returns, then connect() is called", "threshold": 3});
+    report.sample(json!({"case": "connect right after stop", "observed": detail}));
+    if served >= 3 {
+        report.violation(
+            "a-served-after-shutdown/opened-the-moment-stop-returned",
+            &format!("{served} of {judged} connections that were opened right after the stop request had returned were accepted and served in full"),
+            detail,
+        );
+    }
+}
+
 pub async fn run_prop(cli: &Cli) -> i32 {
     let mut report = Report::new(
         cli,
@@ -1004,6 +1083,7 @@ pub async fn run_prop(cli: &Cli) -> i32 {
         let late = LateLog::start(Duration::from_millis(5));
         flood_family(cli, &mut report, &late).await;
         sigint_family(cli, &mut report).await;
+        right_after_cancel_family(cli, &mut report).await;
         // a connection task that dies during the drain
         let (ok, transfer_at, returned, problem) = panicking_sibling().await;
         let detail = json!({"transfer_received_s_after_cancel": transfer_at, "listen_returned_s_after_cancel": returned, "timeout_s": 10, "backend_s": 2.5, "sibling_panics_s_after_cancel": 0.5});
